@@ -277,6 +277,10 @@ pub fn opts_for(prop: &str) -> GenOpts {
 }
 
 fn chunk_size(rng: &mut Rng, len: usize) -> usize {
+    if len > 200 {
+        let huge = [64, 100, 255, 256, 257, 1024, 1025, len / 3, len - 1, len, len + 1];
+        return (*rng.pick(&huge)).max(1);
+    }
     if len > 24 {
         // "large" runs: sizes around powers of two and around the length
         let big = [
@@ -321,6 +325,10 @@ fn chunk_size(rng: &mut Rng, len: usize) -> usize {
 }
 
 fn pick_len(rng: &mut Rng, kind: Kind, max_len: usize) -> usize {
+    if max_len >= 12 && rng.chance(1, 250) && !kind.is_array() {
+        // very few "very large" runs (the sizes the repository's own tests use)
+        return *rng.pick(&[257usize, 1000, 1024, 2141]);
+    }
     if max_len >= 12 && rng.chance(4, 100) {
         // a few "large" runs: a defect that only shows beyond some size threshold
         // (a chunk of more than 32 elements, a length above 64, ...) must not hide in the small scope
@@ -348,6 +356,13 @@ fn pick_len(rng: &mut Rng, kind: Kind, max_len: usize) -> usize {
 }
 
 fn method(rng: &mut Rng, len: usize) -> Method {
+    if len > 200 {
+        return if rng.chance(1, 2) {
+            Method::Chunk(chunk_size(rng, len))
+        } else {
+            Method::Buf(chunk_size(rng, len))
+        };
+    }
     match rng.below(6) {
         0 => Method::Next,
         1 => Method::NextIdVal,
